@@ -383,7 +383,8 @@ func Mangle(r Rnd, method string, codec bool, structuralOnly bool, frame []byte)
 
 // MetaCorruptKinds lists the damage done to hbase:meta rows.
 var MetaCorruptKinds = []string{"regioninfo-empty", "regioninfo-short", "regioninfo-bad-magic", "regioninfo-bad-proto", "regioninfo-offline",
-	"regioninfo-no-table", "server-absent", "server-empty", "regioninfo-absent", "rowkey-no-commas", "rowkey-one-comma", "rowkey-garbage", "region-older"}
+	"regioninfo-no-table", "server-absent", "server-empty", "regioninfo-absent", "rowkey-no-commas", "rowkey-one-comma", "rowkey-garbage", "region-older",
+	"rowkey-other-start", "rowkey-other-table"}
 
 // CorruptMeta damages the cells of one meta row.
 func CorruptMeta(r Rnd, cells []Cell) ([]Cell, string) {
@@ -401,6 +402,36 @@ func CorruptMeta(r Rnd, cells []Cell) ([]Cell, string) {
 			newRow = append(append([]byte(nil), row[:i+1]...), bytes.ReplaceAll(row[i+1:], []byte(","), []byte(";"))...)
 		case "rowkey-garbage":
 			newRow = garbage(r, r.Intn(12))
+		case "rowkey-other-start", "rowkey-other-table":
+			// a well-formed name that is not the name of the region the row describes
+			i, j := bytes.IndexByte(row, ','), bytes.LastIndexByte(row, ',')
+			table, start, rest := row[:i], row[i+1:j], row[j:]
+			if kind == "rowkey-other-start" {
+				alpha := []byte{0x00, '+', ',', '-', '0', 'a', 'm', 0xff}
+				ns := make([]byte, r.Intn(3))
+				for k := range ns {
+					ns[k] = alpha[r.Intn(len(alpha))]
+				}
+				if bytes.Equal(ns, start) {
+					ns = append(ns, 0x00)
+				}
+				start = ns
+			} else {
+				switch r.Intn(4) {
+				case 0:
+					table = append(append([]byte(nil), table...), 'x')
+				case 1:
+					table = table[:len(table)-1]
+					if len(table) == 0 {
+						table = []byte("a")
+					}
+				case 2:
+					table = []byte("a")
+				default:
+					table = []byte("zz")
+				}
+			}
+			newRow = append(append(append(append([]byte(nil), table...), ','), start...), rest...)
 		case "region-older":
 			// hbase:meta answers with an older incarnation of the region: smaller id, other name
 			j := bytes.LastIndexByte(row, ',')
